@@ -41,7 +41,7 @@ def run(sid, tier="quick", in_repo=False):
         for p in props:
             t0 = time.time()
             r = subprocess.run([os.path.join(V, "check"), p, "--tier", tier], cwd=V, env=env, capture_output=True, text=True)
-            sigs = re.findall(r"signature=(\S+)", r.stdout)
+            sigs = re.findall(r"^  signature=(\S+)", r.stdout, re.M)
             out[p] = {"exit": r.returncode, "caught": r.returncode == 1 and "VIOLATION property=%s" % p in r.stdout,
                       "violations": sorted(set(sigs))[:12], "wall_s": round(time.time() - t0, 1), "tier": tier,
                       "tail": r.stdout.strip().splitlines()[-1:] }
